@@ -29,11 +29,26 @@ func (c *MultiRepoCache) RegisterRepository(repo repository.ClockedRepo, name st
 	go func() {
 		defer close(out)
 
+		var failure *BuildEvent
 		for event := range events {
-			out <- event
-			if event.Err != nil {
-				return
+			if failure != nil {
+				// let the build stop
+				continue
 			}
+			if event.Err != nil {
+				event := event
+				failure = &event
+				continue
+			}
+			out <- event
+		}
+
+		if failure != nil {
+			// the repository is not registered: release its lock (if taken)
+			// before the failure is reported
+			_ = r.Close()
+			out <- *failure
+			return
 		}
 
 		c.repos[name] = r
